@@ -16,6 +16,20 @@ _HIST_ASSUME = [
 ]
 
 PROPS = {
+    "C05": {
+        "level": "fault_enumeration",
+        "jobs": [
+            {"run": "^TestC05CrashImages", "checks": {"quick": 12, "thorough": 250}, "shards": {"quick": 2, "thorough": 14}, "shrink_s": 45},
+            {"run": "^TestC05EmptyFileImages", "rapid": False, "checks": {"quick": 0, "thorough": 0}, "shards": {"quick": 1, "thorough": 1}},
+            {"run": "^TestC05(Sigkill|Child)", "checks": {"quick": 60, "thorough": 400}, "shards": {"quick": 1, "thorough": 4}, "shrink_s": 45},
+        ],
+        "assumptions": [
+            "process-crash model: completed system calls survive (no power-loss reordering), as the property says",
+            "the server flushes nothing at shutdown, so a copy of the data directory taken at a crash point is what a crash at that instant leaves behind",
+            "crash points are the verif points placed before and after every write of the persistence code; states a single write(2) could expose partially are out of the model",
+            "images are started with the clock at the window start (no catch-up rotation mixed into the comparison)",
+        ],
+    },
     "C14": {
         "level": "exploration",
         "jobs": [
@@ -225,6 +239,11 @@ PROPS = {
 
 # Texts for MANIFEST.json.
 META = {
+    "C05": {
+        "technique": "fault enumeration driven by generated histories: a directory image at every persistence point of every operation, all empty-file states, and real SIGKILL of a child process at drawn journal positions; oracle = reference model before/after the operation in progress",
+        "text": "Every instant at which the disk changes during a generated history (first start, registration, authorizations incl. conflicts, reports, rotations) yields a crash image that is started and compared with the model; all 63 combinations of present-but-empty files are started, registered and used; a child process executing a generated plan is SIGKILLed at a drawn journal line plus a few hundred microseconds and the recovered state must equal the model after the completed operations with the in-flight one applied or not. The enumeration is complete for the instrumented persistence points of the generated histories, not for all histories.",
+        "note": "Enumerates crash points, samples histories. The strace-based syscall-shape sub-check of the design was not built (see DESIGN.md).",
+    },
     "C14": {
         "technique": "schedule-owning injection of write bursts into every gap of the archive loop (complete gap x burst matrix on generated states), concurrent writers, and rate-limit schedules judged by interval arithmetic",
         "text": "For generated server states the archive is requested and a write burst (new device + first report, registration + first device, rotation, conflicting authorization, report burst) is executed from the verif point before each file is added; the zip is parsed by the harness and checked for record-aligned prefixes, dependency closure under the archived keys, absence of private key material and an exact server.pubkey. Archives taken under truly concurrent writers are checked without the alignment clause. Request bursts are judged against the configured limit with the C19 interval oracle. Exploration only.",
